@@ -637,3 +637,7 @@ CLAUSES = [
     Clause("C05.comp_spectrum", comp_spectrum_cases, comp_spectrum_check, tol="spec", doc="pure inputs from the ket catalogue: Phi and Phi^c outputs have the same non-zero spectrum"),
     Clause("C05.comp_domain", comp_domain_cases, comp_domain_check, tol="exact", doc="documented rejections of complementary_channel (empty, non-square, unequal sizes, not trace preserving)"),
 ]
+
+# every toqito call of this property is repeated with column-major copies of its array arguments (engine.call, layout twin)
+for _c in CLAUSES:
+    _c.layout_twin = True
